@@ -29,7 +29,7 @@ TFold(ch) == IF \E i \in 1..Len(FoldTab) : FoldTab[i][1] = ch
 TDefaultDelim == S(D.ddelim)
 Focus == {D.focus[i] : i \in 1..Len(D.focus)}
 
-INSTANCE Loaders WITH FoldMap <- TFold, DefaultDelim <- TDefaultDelim
+INSTANCE Writers WITH FoldMap <- TFold, DefaultDelim <- TDefaultDelim
 
 Traces == D.traces
 N == Len(Traces)
@@ -128,7 +128,26 @@ ApplyOp(pre, op) ==
          [out |-> r.out, convs |-> IF r.out = Ok THEN Append(pre, r.conv) ELSE pre,
           tgt |-> IF r.out = Ok THEN Len(pre) + 1 ELSE 0]
     [] op.k = "upgrade" -> [out |-> <<"val">>, convs |-> pre, tgt |-> 0]
-    [] OTHER -> [out |-> Ok, convs |-> pre, tgt |-> 0]       \* "probe": queries only
+    [] OTHER -> [out |-> Ok, convs |-> pre, tgt |-> 0]       \* "probe": queries only; "write": a file, no converter changes
+
+\* files (spec/System.tla).  A read event names the write event (op.w) whose file it reads: the document is the one the
+\* specification derives from the source converter AS LOGGED BEFORE THAT WRITE -- whatever happened to it since
+WriteOp(t, op) == Traces[t].events[op.w].op
+SrcOf(t, op) == PostOf(t, op.w - 1)[WriteOp(t, op).i]
+ReadApply(t, pre, op) ==
+  LET w == WriteOp(t, op)  src == SrcOf(t, op)
+      r == ReadFile([fmt |-> w.fmt, syn |-> w.syn, expand |-> w.expand, delim |-> src.delim, doc |-> DocOf(w.fmt, w.syn, w.expand, src)]) IN
+  [out |-> r.out, convs |-> IF r.out = Ok THEN Append(pre, r.conv) ELSE pre, tgt |-> IF r.out = Ok THEN Len(pre) + 1 ELSE 0]
+\* read-back of synonym output is non-strict: the property fixes the prefix map and the patterns only
+ReadLoose(t, op) == op.k = "read" /\ WriteOp(t, op).syn /\ WriteOp(t, op).fmt \in {"jsonld", "shacl"}
+\* writing an empty converter as SHACL is outside C14 (and the code's behaviour there is not specified)
+ReadJudged(t, op) == op.k = "read" => (WriteOp(t, op).fmt = "shacl" => Len(SrcOf(t, op).recs) > 0)
+ReadMonBad(t, pre, post, op, log) ==
+  IF op.k = "read" /\ "C14" \in Focus /\ InC14(WriteOp(t, op).fmt, WriteOp(t, op).syn, SrcOf(t, op))
+  THEN LET r == [out |-> IF log[1] = "raise" THEN Raise(log[3]) ELSE <<log[1]>>,
+                 conv |-> IF Len(post) > Len(pre) THEN post[Len(post)] ELSE EmptyConv(TDefaultDelim)] IN
+       IF P_C14(WriteOp(t, op).fmt, WriteOp(t, op).syn, SrcOf(t, op), r) THEN {} ELSE {<<"mon", "C14", WriteOp(t, op).fmt>>}
+  ELSE {}
 
 \* upgrade_prefix_map returns records, not a converter
 UpgradeBad(op, log) ==
@@ -249,12 +268,12 @@ EventBad(t, l) ==
   LET ev == Traces[t].events[l]
       pre == PreOf(t, l)
       post == PostOf(t, l)
-      r == ApplyOp(pre, ev.op)
+      r == IF ev.op.k = "read" THEN ReadApply(t, pre, ev.op) ELSE ApplyOp(pre, ev.op)
       \* non-strict construction is specified (overwrite order) but no property speaks about it: its clauses carry
       \* their own name so that they are never attributed to C04
       k == IF ev.op.k = "new" /\ ~ev.op.strict THEN "new_nonstrict" ELSE ev.op.k
       \* discover(converter=...) appends a converter whose content is C19's business: here only the frame is judged
-      ok == InputsOK(pre, ev.op) /\ ev.op.k # "discover"
+      ok == InputsOK(pre, ev.op) /\ ev.op.k # "discover" /\ ReadJudged(t, ev.op)
   IN
   (IF ok /\ ~OutMatch(r.out, ev.out) THEN {<<"out", k>>} ELSE {}) \cup
   (IF ok /\ ~DupsMatch(r.out, ev.out) THEN {<<"dups", k>>} ELSE {}) \cup
@@ -263,7 +282,8 @@ EventBad(t, l) ==
   (IF ok /\ r.tgt # 0 /\ r.tgt <= Len(post) /\ "inexact" \notin DOMAIN ev
    THEN {<<"post", k, x>> : x \in ConvDiff(r.convs[r.tgt], post[r.tgt]) \
                                    \* no property fixes the delimiter of a DERIVED converter (the code uses the default)
-                                   (IF k \in {"chain", "sub", "remap_curie", "remap_uri", "rewire"} THEN {"delim"} ELSE {})} ELSE {}) \cup
+                                   ((IF k \in {"chain", "sub", "remap_curie", "remap_uri", "rewire"} THEN {"delim"} ELSE {}) \cup
+                                    (IF ReadLoose(t, ev.op) THEN {"recs", "s2p", "rpm", "trie"} ELSE {}))} ELSE {}) \cup
   \* every other converter is untouched (C10), component by component
   UNION {{<<"frame", k, x>> : x \in ConvDiff(pre[i], post[i])} :
             i \in {i \in 1..Len(pre) : i <= Len(post) /\ i # r.tgt}} \cup
@@ -272,6 +292,7 @@ EventBad(t, l) ==
   UNION {PRowBad(post[ev.ppt[q].i], ev.ppt[q]) : q \in 1..Len(ev.ppt)} \cup
   UNION {MonBad(ev, i, post[i]) : i \in {ev.pt[q].i : q \in 1..Len(ev.pt)} \cup {ev.ppt[q].i : q \in 1..Len(ev.ppt)}} \cup
   (IF InputsStrict(pre, ev.op) THEN OpMonBad(pre, post, ev.op, ev.out) ELSE {}) \cup
+  ReadMonBad(t, pre, post, ev.op, ev.out) \cup
   UpgradeBad(ev.op, ev.out)
 
 VARIABLES tid, l
